@@ -195,6 +195,26 @@ def private_helper(ctx, f, call: ast.Call):
     return g
 
 
+# callees that are sinks / role-preserving anchors of the role rules themselves: they stay calls in the inlined view
+VIEW_KEEP = ("_get_indexed_var_str", "_relabel_var")
+
+
+def view(ctx, f):
+    """The function as the role rules read it: engine.inline.inlined(f) - private helpers called in statement position are spliced
+    in, so roles flow through extracted blocks as through ordinary locals.  Obligations are reported under the original f."""
+    if getattr(f, "origin", None) is not None:
+        return f
+    cache = ctx.__dict__.setdefault("_roles_views", {})
+    key = f.qual
+    if key not in cache:
+        from engine.inline import inlined
+        try:
+            cache[key] = inlined(ctx, f, keep=VIEW_KEEP)
+        except Exception:
+            cache[key] = f
+    return cache[key]
+
+
 class Roles:
     """Role inference for the expressions of one function.  `param_roles` carries the roles of the arguments when the function is
     analysed as a helper of a typed caller (the roles the parameter names declare are joined with them)."""
@@ -352,10 +372,15 @@ class Roles:
                 return seed_of(k.value)
             base = self.role(e.value, env)
             if isinstance(base, tuple):
+                parts = base[1:] if base[0] == "tup" else None
                 if isinstance(k, ast.Constant) and isinstance(k.value, int):
-                    parts = base[1:] if base[0] == "tup" else None
                     if parts is not None and -len(parts) <= k.value < len(parts):
                         return parts[k.value]
+                if isinstance(k, ast.Slice) and parts is not None and k.step is None \
+                        and all(b is None or (isinstance(b, ast.Constant) and isinstance(b.value, int)) for b in (k.lower, k.upper)):
+                    lo = k.lower.value if k.lower is not None else None       # names[:3] keeps the roles of the selected positions
+                    hi = k.upper.value if k.upper is not None else None
+                    return ("tup",) + tuple(parts[lo:hi])
                 return None
             return base if base in (SRC, TGT, WGT) else None
         if isinstance(e, ast.Starred):
@@ -446,8 +471,9 @@ class Roles:
         if hr is None:
             return None
         g, proles = hr
-        sub = Roles(self.ctx, g, proles, self.depth + 1)
-        rets = [s.value for s in walk_shallow(g.node) if isinstance(s, ast.Return) and s.value is not None]
+        gv = view(self.ctx, g)
+        sub = Roles(self.ctx, gv, proles, self.depth + 1)
+        rets = [s.value for s in walk_shallow(gv.node) if isinstance(s, ast.Return) and s.value is not None]
         if not rets:
             return None
         r = join(*[sub.role(v) for v in rets])
